@@ -17,7 +17,10 @@ RULE = ("square systems n=1..8: dense, zero/tiny leading pivots at several steps
         "distinct = distinct executor line; non-trivial = n >= 2 and nonsingular")
 TRUSTED = ["Coq 8.16.1 kernel + vm_compute", "Rust executor /verif/harness (Rat = i128 rationals)", "python driver (generators, Fraction residual oracle, comparators)",
            "hand-written Gallina model coq/Model/Solve.v tied to src/matrix/solve.rs by differential execution"]
-ASSUMPTIONS = ["Rust semantics of Vec/usize as modelled", "float backward stability is searched (1e-11 normwise), not proved"]
+ASSUMPTIONS = ["Rust semantics of Vec/usize as modelled", "float backward stability is searched (1e-11 normwise), not proved",
+               "nonsingular is decided exactly (Fraction elimination; over Q(i) for Complex<f64>); exactly singular draws are redrawn and never judged",
+               "a float matrix with numpy cond_inf(A) > 1e15 (singular to working precision, e.g. tiny pivots 1e-20 beside entries of order 1) is excused "
+               "ONLY a non-finite answer (counted: float_solver_agreement.numerically_singular_skipped); finite answers on such matrices are judged in full"]
 UNPROVED = ["round two (Props/C01.v, package round): in the standard rounding model the computed solution of solve_lu satisfies (A+dA)x = b+db with |dA| <= gamma_3n |L||U| (lu_factor_backward_error, solve_lu_backward_error) and solve_basic likewise with gamma_{n+1}; multipliers |l_ik| <= 1+u under partial pivoting; the triangular solves also at binary64 via Flocq. NOT proved: the growth factor (|L||U| versus |A|), i.e. normwise backward stability itself -- tie + search; fails for Complex<f64> at extreme magnitudes (recorded finding cplx-sqmod-range)",
             "solve_lu_sound / solvers_agree are assembled from package c02's LU theorems (this file's theorems are about solve_basic)"]
 
@@ -167,9 +170,12 @@ def cplx_exact_pivots(A, n):
 
 def finding_key(case, desc, items):
     """`cplx-sqmod-range` iff the element type is Complex<f64> and some entry of A or b, or some exact pivot, has re^2 + im^2
-    outside the normal f64 range (underflows to 0/subnormal, or overflows)."""
+    outside the normal f64 range (underflows to 0/subnormal, or overflows) AND the failure is one of the documented symptoms of
+    the cause: a non-finite component, or a backward error above the bound.  A panic, a wrong length or a disagreement of two
+    finite accurate answers is not explained by unscaled squares and stays a violation."""
     m = case.meta
     if case.elt != 'cplx' or m.get("bad") or "A" not in m: return None
+    if not ("non-finite component" in desc or "backward error" in desc): return None
     A, b, n = m["A"], m["b"], m["n"]
     try:
         if any(sqmod_out_of_range(complex(z).real, complex(z).imag) for z in list(A) + list(b)): return "cplx-sqmod-range"
@@ -201,6 +207,33 @@ def nonsingular(A, n):
         return det_exact([Fraction(x) for x in A], n) != 0
     except Exception:
         return False
+
+def cplx_singular(A, n):
+    """exact test over Q(i): the determinant of the complex matrix (binary-float parts) is 0"""
+    try:
+        return cdet_exact([complex(z) for z in A], n) == (0, 0)
+    except (OverflowError, ValueError):      # non-finite entries
+        return True
+
+def cplx_nonsingular_draw(draw, n, tries=20):
+    """a Complex matrix drawn as a nonsingular real matrix plus random imaginary parts can be exactly singular: redraw"""
+    for _ in range(tries):
+        A = draw()
+        if not cplx_singular(A, n): return A
+    return None
+
+def cond_inf(A, n):
+    """numpy's infinity-norm condition number of the matrix scaled by a power of two (exact) to magnitude ~1; inf when it cannot be computed"""
+    import numpy as np, math
+    try:
+        mx = max((abs(complex(v)) for v in A), default=0.0)
+        if not (mx > 0 and math.isfinite(mx)): return float('inf')
+        e = math.frexp(mx)[1]
+        M = np.array([complex(math.ldexp(complex(v).real, -e), math.ldexp(complex(v).imag, -e)) for v in A]).reshape(n, n)
+        k = float(np.linalg.cond(M, np.inf))
+        return k if k == k else float('inf')
+    except Exception:
+        return float('inf')
 
 def to_elt(rng, A, elt, scale_rows=True):
     if elt == 'rat': return A
@@ -242,7 +275,10 @@ def generate(rng, tier):
                 A = [x * sc for x in A]
                 b = [fval(g, sc) for _ in range(n)]
                 if elt == 'cplx':
-                    A = [complex(x, fval(g, sc) if g.chance(1, 2) else 0.0) for x in A]
+                    # imaginary parts added to a nonsingular REAL matrix can make the complex matrix exactly singular
+                    # (outside the quantifier): redraw them, give up on the case after 20 draws
+                    A = cplx_nonsingular_draw(lambda: [complex(x, fval(g, sc) if g.chance(1, 2) else 0.0) for x in A], n)
+                    if A is None: continue
                     b = [complex(x, fval(g, sc)) for x in b]
                 cases.append(mk(elt, n, A, b, elt + "-" + fam, n >= 2))
     # Complex<f64> entries ON THE AXES: a real nonsingular matrix with column j multiplied by a unit u_j in {1, -1, i, -i}
@@ -368,7 +404,8 @@ def gen_special(rng, tier):
         sc = 2.0 ** (k if g.chance(1, 2) else -k)
         b = [fval(g) for _ in range(n)]
         if cplx:
-            A = [complex(x, fval(g) if g.chance(1, 2) else 0.0) * sc for x in A]
+            A = cplx_nonsingular_draw(lambda: [complex(x, fval(g) if g.chance(1, 2) else 0.0) * sc for x in A], n)
+            if A is None: continue
             b = [complex(x, fval(g)) * sc for x in b]
             cases.append(mk('cplx', n, A, b, "cplx-scaled-2^%s" % ("+k" if sc > 1 else "-k"), n >= 2))
         else:
@@ -392,8 +429,9 @@ def gen_special(rng, tier):
             b = [float(g.range(-8, 8)) for _ in range(n)]
             cases.append(mk('f64', n, A, b, "f64-order-9..40-" + fam, True))
             if n <= 24 and (not quick or n in (16, 17)):
-                cases.append(mk('cplx', n, [complex(x, float(g.range(-3, 3)) if g.chance(1, 3) else 0.0) for x in A],
-                                [complex(x, float(g.range(-3, 3))) for x in b], "cplx-order-9..24-" + fam, True))
+                Ac = cplx_nonsingular_draw(lambda: [complex(x, float(g.range(-3, 3)) if g.chance(1, 3) else 0.0) for x in A], n)
+                if Ac is not None:
+                    cases.append(mk('cplx', n, Ac, [complex(x, float(g.range(-3, 3))) for x in b], "cplx-order-9..24-" + fam, True))
     # (s6) mis-shaped systems at the float element kinds as well (the guards are generic code, the element kind is not)
     g = rng.fork("bad-float")
     for elt in ('f64', 'cplx'):
@@ -422,17 +460,30 @@ def oracle(case, items):
             return "mismatched/non-square/empty system (%dx%d, |b|=%d) was answered instead of rejected: %r" % (m["r"], m["c"], m["lb"], items[:6])
         return None
     n, A, b, elt = m["n"], m["A"], m["b"], case.elt
-    sing = not nonsingular(A, n) if elt != 'cplx' else False
+    # singular input is outside the quantifier; decided exactly (Fractions; over Q(i) for Complex: a real nonsingular matrix plus
+    # imaginary parts can be exactly singular)
+    sing = cplx_singular(A, n) if elt == 'cplx' else not nonsingular(A, n)
     if items and items[-1][0] == 'P':
         if sing: return None
-        if elt == 'cplx': return None if not nonsingular([x.real for x in A], n) and all(x.imag == 0 for x in A) else "solver panicked on a nonsingular complex system"
-        return "solver panicked (%s) on a nonsingular %dx%d system" % (items[-1][1], n, n)
+        return "solver panicked (%s) on a nonsingular %s%dx%d system" % (items[-1][1], "complex " if elt == 'cplx' else "", n, n)
     if sing:
+        STATS["exactly_singular_skipped"] = STATS.get("exactly_singular_skipped", 0) + 1
         return None      # singular input: outside the quantifier (floats may return inf/nan)
     x, pos = parse_items_vec(items, 0, elt)
     y, pos = parse_items_vec(items, pos, elt)
     for name, sol in (("solve_basic", x), ("solve_lu", y)):
         if len(sol) != n: return "%s returned %d components for n=%d" % (name, len(sol), n)
+    kap = None
+    if elt != 'rat' and n > 0:
+        kap = cond_inf(A, n)
+        # a matrix with cond_inf(A) > 1e15 (> 1/(4 eps)) is singular to working precision although its exact determinant is not 0:
+        # a pivot may cancel to exactly 0 in binary64 and every LU solver then answers inf/nan.  "backward error of the order of
+        # machine epsilon" can only be demanded of an answer that exists: a NON-FINITE answer on such a matrix is counted and
+        # skipped; a finite answer is judged like any other (backward stability does not depend on the conditioning).
+        if kap > 1e15 and not all(isfinite(v) for v in x + y):
+            STATS["numerically_singular_skipped"] = STATS.get("numerically_singular_skipped", 0) + 1
+            return None
+    for name, sol in (("solve_basic", x), ("solve_lu", y)):
         if elt == 'rat':
             r = [b[i] - sum(A[i*n+j] * sol[j] for j in range(n)) for i in range(n)]
             if any(v != 0 for v in r): return "%s: exact residual b - A x != 0 (%s)" % (name, r)
@@ -445,9 +496,6 @@ def oracle(case, items):
     if elt != 'rat' and n > 0:
         # both answers solve nearby systems (backward errors above), so they differ by at most cond(A) times those:
         # ||x - y|| <= cond_inf(A) * 4e-11 * max(||x||, ||y||) (+ the |b| share, absorbed in the factor 4)
-        import numpy as np
-        M = np.array([complex(v) for v in A]).reshape(n, n)
-        kap = float(np.linalg.cond(M, np.inf))
         d = max(abs(x[i] - y[i]) for i in range(n))
         lim = 4e-11 * kap * max(norm_inf_vec(x), norm_inf_vec(y), norm_inf_vec(b) / max(norm_inf_mat(A, n, n), 1e-300))
         STATS["compared"] = STATS.get("compared", 0) + 1
